@@ -9,7 +9,7 @@ CHECKS = {
     level='other',
     text=('Bounded symbolic proof over the real code: compute_node_triangle_distance (LLVM IR from clang-14) is executed symbolically with all 12 coordinates '
           'symbolic; every feasible return path is enumerated and z3 (nlsat) decides barycentric validity, distance consistency, KKT optimality, translation '
-          'and rotation invariance for all real inputs. The function is loop-free, so the only bound is the exact-real reading of doubles (rounding outside the claim).'),
+          'and rotation invariance for all real inputs. The function is loop-free, so the only bound is the exact-real reading of doubles (rounding outside the claim). A refuted obligation whose model does not reproduce natively is re-searched with the triangle confined to other length scales (1e-5, 1e-3, 1e3).'),
     note=('Trusted: clang-14 lowering (validated every run against the g++ -O2 build on random inputs, bit for bit), irsym interpreter + z3 translation, z3; '
           'assumption: non-degenerate triangle; KKT/non-negativity are core in a canonical frame, generality in orientation via solver-proved rotation invariance of every dot product.'),
     technique='symbolic execution of LLVM IR + z3 nonlinear real arithmetic; native replay of counterexamples',
@@ -17,7 +17,7 @@ CHECKS = {
  'C01': dict(
     level='other',
     text=('Bounded symbolic checking of the remeshing operations: every split / can_be_merged+merge / swap on every edge of the catalogue meshes (4-6 nodes quick, up to 7 thorough), refinement passes with at most k '
-          'edges outside the length band, and pass-compaction-move-pass-compaction chains are executed from the LLVM IR with symbolic coordinates; z3 decides which paths exist. On every path an independent oracle '
+          'edges outside the length band, pass-compaction-move-pass-compaction chains, and the histories collapse-then-split (freed slots reused) with and without a following compaction are executed from the LLVM IR with symbolic coordinates; z3 decides which paths exist. On every path an independent oracle '
           '(triangle list only) checks closedness, consistent orientation, genus, duplicate triangles, live nodes, and the cell\'s own edge set, counts, free queues and ids; z3 proves cached normals/areas agree with the winding '
           'and that a split keeps the signed volume; the ordering key of std::set<edge> is proved injective below 2^26 ids (integer encoding validated against the real edge::hash).'),
     note='Trusted: clang lowering (validated per run incl. whole passes), irsym + red-black-tree shim, normaliser, z3. Bounds: catalogue connectivity, <= 2 passes, <= k out-of-band edges per pass (k=1 quick, 2 thorough), passes with swapping disabled. Assumption: pre-state from the real constructor in generic position.',
@@ -36,7 +36,7 @@ CHECKS = {
     text=('Bounded symbolic proof: apply_pressure_on_surface, apply_surface_tension_and_membrane_elasticity (whole mesh; T4,T5 quick, +T6 thorough), apply_bending_forces (one hinge at a time) '
           'and regularize_face_angles (one face at a time) run in irsym after the real constructor/initialisation with every coordinate and parameter symbolic. For every feasible path the solver '
           'decides net force = 0 and net torque = 0; pressure and tension/elasticity forces are proved equal, per node and component, to p*dV/dx_i and -sum_f gamma_eff,f*dA_f/dx_i obtained by '
-          'differentiating the oracle volume/area polynomials. Bending is decided in the canonical hinge frame with a free translation.'),
+          'differentiating the oracle volume/area polynomials. Bending is decided in the canonical hinge frame with a free translation. The tension/elasticity term is run twice: all parameters symbolic, and with both surface tensions exactly zero (exact tests of a parameter against 0 are otherwise taken on their generic side).'),
     note=('Trusted: clang lowering (validated per run), irsym, polynomial normaliser (sqrt/denominator atoms, tan(acos c)=sqrt(1-c^2)/c), z3. Assumptions: closed outward mesh in generic position; exact reals; '
           'M_PI/2 read as pi/2. Outside: meshes > 6 nodes, rotation covariance of the bending hinge, values of the bending/regularisation energy gradients.'),
     technique='symbolic execution of LLVM IR + algebraic normalisation + z3 nonlinear real arithmetic; native replay of solver models',
@@ -54,7 +54,7 @@ CHECKS = {
     level='other',
     text=('Bounded symbolic proof on the narrow phase of the contact models: resolve_contact / apply_contact_forces runs in irsym on one (node, face) pair with all positions, normals, curvatures, cut-offs and strengths symbolic, '
           'for representative ordered pairs of cell types (quick: 5 pairs, contact model 1; thorough: all 25 pairs, models 0/1/2, both cut-off orders). The kernel is replaced by its contract (C05). Per feasible path z3 proves reciprocity, '
-          'no force beyond the largest cut-off, repulsion only on the forbidden side (inverted for epithelial-vs-ECM and nucleus-vs-epithelial), node pushed toward the surface point with the reaction toward the node, couplings mutual/epithelial-only/within the adhesion cut-off.'),
+          'no force beyond the largest cut-off, repulsion only on the forbidden side (inverted for epithelial-vs-ECM and nucleus-vs-epithelial), node pushed toward the surface point with the reaction toward the node, couplings mutual/epithelial-only/within the adhesion cut-off. An obligation z3 leaves undecided is re-searched with the scalar parameters fixed (a refutation found this way is replayed natively; a proof under fixed parameters does not count).'),
     note='Trusted: clang lowering (validated per model), irsym, normaliser, z3; kernel contract from C05. Outside: accumulation over many pairs under threads, broad phase, same-cell filtering (C06).',
     technique='symbolic execution of LLVM IR (per contact model) + z3 nonlinear real arithmetic; native replay',
     design='3/C07'),
@@ -70,7 +70,7 @@ CHECKS = {
     level='other',
     text=('Memory-safety monitoring on symbolically explored paths (not a whole-program claim): irsym executes the real constructor, initialize_cell_properties and each refinement/compaction '
           'operation (split, can_be_merged+merge, swap on every edge; rebase) on catalogue meshes whose vectors are at capacity, with symbolic coordinates; every load/store is checked against live '
-          'regions, never-written bytes are tracked into decisions, frees are checked. z3 decides which paths exist; a report counts only if valgrind memcheck confirms the same class of error natively.'),
+          'regions, never-written bytes are tracked into decisions, frees are checked. Further parts: first iterations of the real solver and its construction/destruction (ASan for sized deletes), and the mesh loader after tokenisation (mesh_reader::get_cell_mesh with every list entry symbolic, the exploration of C17). z3 decides which paths exist; a report counts only if valgrind memcheck confirms the same class of error natively.'),
     note='Trusted: irsym memory model and libstdc++ models; valgrind as replay oracle (also on a -O0 build for uninitialised reads). Outside: thread schedules, parsing, ball pivoting, sprintf, every path no harness explores (see DESIGN C10).',
     technique='symbolic execution of LLVM IR with a checked memory model; z3 path feasibility; valgrind replay',
     design='3/C10'),
@@ -79,15 +79,15 @@ CHECKS = {
     text=('Bounded symbolic proof: the real cell constructor, initialize_cell_properties, compute_volume/area/centroid, get_aabb, update_face_normal_and_area and '
           'check_face_normal_orientation run in irsym on a catalogue of closed meshes (quick: T4,T5; thorough: up to 7 nodes) with every coordinate symbolic. z3 proves exactness '
           '(divergence theorem about an arbitrary origin = translation invariance), cubic/quadratic scaling, face normal/area laws, centroid law, AABB tightness, invariance under all '
-          'adjacent transpositions of node/face storage, and orientation repair for all 2^F input windings (both sign branches). Bound: mesh connectivity is concrete (catalogue).'),
-    note='Trusted: clang-14 lowering (validated per run vs g++ -O2 bitwise), irsym + polynomial normaliser + z3; assumptions: closed consistently wound input in generic position, exact-real arithmetic; get_cell_longest_axis not encoded.',
+          'adjacent transpositions of node/face storage, and orientation repair for all 2^F input windings (both sign branches); get_cell_longest_axis: the 3x3 eigen-solver is replaced by a recording stub, z3 proves that the matrix it receives is the mean of (p-c)(p-c)^T over the nodes (c the cell centroid) and that the returned direction is the unit eigenvector of an eigenvalue of largest magnitude (native replay against numpy on tilted meshes). Bound: mesh connectivity is concrete (catalogue).'),
+    note='Trusted: clang-14 lowering (validated per run vs g++ -O2 bitwise), irsym + polynomial normaliser + z3; assumptions: closed consistently wound input in generic position (incl. eigenvalues of pairwise different magnitude), exact-real arithmetic; the eigen-solver itself (gte::SymmetricEigensolver3x3) is environment.',
     technique='symbolic execution of LLVM IR on concrete mesh topology with symbolic coordinates + z3 (nlsat) on normalised polynomial obligations',
     design='3/C12'),
  'C04': dict(
     level='other',
     text=('Symbolic proof of the closed-form cell-cycle laws: update_target_volume, update_pressure, is_ready_to_divide (through the vtable of all five cell classes), is_below_min_vol '
           'and initialize_random_properties are executed in irsym with all scalars symbolic (P_max and V_div finite or +inf; sigma zero or not); z3 proves the laws on every feasible path. '
-          'No loops: the only bounds are the case enumeration listed in the evidence.'),
+          'No loops: the only bounds are the case enumeration listed in the evidence. log is uninterpreted; a counterexample whose log value the real logarithm does not take is re-searched with log pinned to its true value at a list of volume ratios, so that it can be replayed natively.'),
     note='Trusted: clang lowering (validated per run), irsym, z3, log as uninterpreted function, normal_distribution::operator() stubbed as mean+stddev*Z (Z arbitrary real). The removal loop of the solver is covered by C08.',
     technique='symbolic execution of LLVM IR + z3 (LRA/NRA with uninterpreted log)',
     design='3/C04'),
@@ -95,7 +95,7 @@ CHECKS = {
     level='other',
     text=('The real run() of contact models 0, 1 and 2 (face list, update_face_aabbs, store_face_in_uspg, per-node voxel lookup, aabb_intersection_check) executes from the LLVM IR on a two/three-cell tissue whose query node p is symbolic in boxes that straddle voxel boundaries '
           '(three placements: at, far from, and straddling the origin; two cut-off settings; 8 sub-boxes each, 27 thorough). irsym records every (node, face) pair handed to the contact rules; per path z3 proves for all node/face pairs of different cells: not handed over => the node lies outside the face box padded by the cut-off. '
-          'Models of failed obligations are replayed natively against the same model with one voxel per axis. Exact reals; many-cell tissues and symbolic cut-offs are not covered.'),
+          'A further set of explorations runs the SAME model object twice (as the solver does every time step) and adds: no pair is handed over more than once in one run. Models of failed obligations are replayed natively against a fresh model with one voxel per axis. Exact reals; many-cell tissues and symbolic cut-offs are not covered.'),
     note='Trusted: clang lowering (validated per run incl. the reference run), irsym (OpenMP sequential model), exact polynomial normal form in p, z3. The narrow phase runs as is (C05/C07 are about it).',
     technique='symbolic execution of LLVM IR (whole contact-model run) with recorded hand-overs; z3 (linear real arithmetic + to_int); native differential replay against a single-voxel grid',
     design='3/C06'),
@@ -155,7 +155,7 @@ CHECKS = {
     level='other',
     text=('Bounded symbolic checking of the grid index arithmetic from the LLVM IR of uspg_3d/uspg_4d: (O1) the IEEE-754 expression DAG of update_dimensions + get_3d_voxel_index is printed as C per path and cbmc '
           '(bit-precise doubles) proves that every point inside the declared box, faces and corners included, maps to an index < voxel count, for all doubles within the stated magnitudes; (O2) the same in exact reals (z3); '
-          '(O3) z3 proves that the linear index equals z*nx*ny + y*nx + x over mathematical integers (no 32-bit wrap) for counts < 2^21 per axis. Retrievability/neighbourhood completeness on containers are not yet part of the claim.'),
+          '(O3) z3 proves that the linear index equals z*nx*ny + y*nx + x over mathematical integers (no 32-bit wrap) for counts < 2^21 per axis. (O2b) exact reals: the index designates the voxel (relative to the origin the grid itself uses) that contains the point; (O4/O5) a stored point is retrieved from its voxel and from the neighbourhood of every query within one voxel size (exact reals, one axis symbolic over <= 3 voxels). Out-of-range double->unsigned conversions met on concrete validation inputs are decided by a containing-voxel oracle on the native run.'),
     note='Trusted: clang lowering (validated per run), irsym bit-precise mode, cbmc --floatbv (minisat + kissat portfolio) and its floor/ceil models, z3. Assumptions: finite inputs, |coordinate| <= 1e6, 1e-9 <= voxel <= 1e6, extent/voxel <= 1e6; vector growth stubbed.',
     technique='symbolic execution of LLVM IR; bit-precise path DAG -> C -> cbmc; z3 for exact-real/integer obligations; native replay',
     design='3/C20'),
